@@ -77,10 +77,23 @@ func propSpecs() map[string]*PropSpec {
 	}
 	_ = label
 	return map[string]*PropSpec{
-		"C11": {ID: "C11", Kinds: []string{"SAFE", "TERM", "PRE", "INV", "POST"}, FuncMatch: all,
-			Own: func(o *Obligation) bool { return !strings.Contains(o.Desc, "[C") },
+		"C11": {ID: "C11", Kinds: []string{"SAFE", "TERM", "PRE", "INV", "POST", "FRAME"}, FuncMatch: all,
+			Own: func(o *Obligation) bool {
+				if o.Kind == "FRAME" {
+					return !o.PhaseB // frames of the model-building phase support the visitor's invariants; generator frames are C14
+				}
+				return !strings.Contains(o.Desc, "[C")
+			},
 			Decided: []string{"no panic (nil dereference, failed type assertion, index/slice bounds, nil-map write, division, overflow, negative Repeat count, template/regexp Must) in any non-generated function of internal/model, internal/parser, cmd", "termination of every loop and every recursive function (variants)", "supporting preconditions, loop invariants and postconditions the safety proofs rely on"},
 			OutOfReach: []string{"ANTLR runtime and generated parser (trusted w.r.t. grammar-derived tree contracts)", "cgo boundary, cobra dispatch, OS"}},
+		"C13": {ID: "C13", Kinds: []string{"DET"}, FuncMatch: all,
+			Own:     func(o *Obligation) bool { return o.Kind == "DET" },
+			Decided: []string{"no call to an impure source (time, rand, environment) in any function of model, parser, cmd", "every effect of a `range` over a map that is visible outside the iteration commutes with the same effect for any other key (map updates: distinct keys or equal values; builder appends: equal text; stores: equal values; file-system effects: distinct paths; loop-carried variables: commutative update, or the collect-keys-then-sort idiom)"},
+			OutOfReach: []string{"order of the 'Generated code for packet' lines on stdout (not part of the file set)", "nondeterminism inside library code (none known: fmt, strings, strcase are deterministic)"}},
+		"C14": {ID: "C14", Kinds: []string{"FRAME"}, FuncMatch: all, PhaseBOnly: true,
+			Own:     func(o *Obligation) bool { return o.Kind == "FRAME" && o.PhaseB },
+			Decided: []string{"every store, map update and delete executed by a generator function targets an object allocated by that activation (or the generator's own hasGen memo table): no generator changes the parsed model or any other pre-existing object, hence the files of one target cannot depend on which other targets ran", "together with C13 (output is a function of the model) this gives independence of target subsets and orders"},
+			OutOfReach: []string{"cgo / OS level interference between writes of different targets into overlapping directories"}},
 	}
 }
 
